@@ -1,5 +1,5 @@
 CONSTANTS Alphabet = {97, 98} MaxLen = 5 MaxDatas = {1, 2, 3} WeakM = 65536
-          SwallowSendBlockError = FALSE Faults = FALSE
-CONSTANT Want = {"C20_FailureReported", "C20_TransmitReported", "C20_ReceiverObtained", "Conforms"}
+          SwallowSendBlockError = FALSE Faults = FALSE OpReset = "whole"
+CONSTANT Want = {"C20_FailureReported", "C20_TransmitReported", "C20_ReceiverObtained", "C20_CleanTransmitDelivers", "Conforms"}
 SPECIFICATION TSpec
 CHECK_DEADLOCK FALSE
